@@ -202,7 +202,20 @@ def decToken : Sexp → Option Token
     pure { authority := auth, blocks := blocks }
   | _ => none
 
+/-- Content operations inside `(load op…)`: what a scratch authorizer is filled with before
+its `SerializePolicies` output is loaded. -/
+def decContentOp : Sexp → Option (AuthState → AuthState)
+  | .list [.atom "addfact", f] => (decFact f).map fun f s => addFact s f
+  | .list [.atom "addrule", r] => (decRule r).map fun r s => addRule s r
+  | .list [.atom "addcheck", c] => (decCheck c).map fun c s => addCheck s c
+  | .list [.atom "addpolicy", p] => (decPolicy p).map fun p s => addPolicy s p
+  | _ => none
+
 def decAuthOp : Sexp → Option AuthOp
+  | .list (.atom "load" :: ops) => do
+    let fs ← ops.mapM decContentOp
+    let s := fs.foldl (fun s f => f s) (AuthState.fresh { maxFacts := 1000, maxIter := 100 })
+    (save s).map AuthOp.loadSnap
   | .list [.atom "addfact", f] => (decFact f).map AuthOp.addFact
   | .list [.atom "addrule", r] => (decRule r).map AuthOp.addRule
   | .list [.atom "addcheck", c] => (decCheck c).map AuthOp.addCheck
